@@ -4,6 +4,8 @@ pub mod c05;
 pub mod c06;
 pub mod c07;
 pub mod c08;
+pub mod c11;
+pub mod c12;
 pub mod c15;
 pub mod c17;
 pub mod c18;
@@ -18,6 +20,8 @@ pub fn run(ctx: &mut Ctx) -> bool {
         "C08" => c08::run(ctx),
         "C09" => life::run(ctx, life::Flags { c09: true, c10: false }),
         "C10" => life::run(ctx, life::Flags { c09: false, c10: true }),
+        "C11" => c11::run(ctx),
+        "C12" => c12::run(ctx),
         "C15" => c15::run(ctx),
         "C17" => c17::run(ctx),
         "C18" => c18::run(ctx),
